@@ -69,7 +69,7 @@ type c13Result struct {
 	Server       string
 	ZeroRTTSeen  int // times the server application received the 0-RTT payload
 	ZeroRTTErr   string
-	Leaked       int  // server routing entries left after everything was closed and timeouts passed
+	Leaked       int // server routing entries left after everything was closed and timeouts passed
 	ClientLeaked int
 	InjectedAt   time.Duration
 	GenuineAt    time.Duration // delivery time of the first intact genuine server datagram (-1: none)
@@ -322,7 +322,7 @@ func c13Run(t *testing.T, cfg c13Config) c13Result {
 		}
 		time.Sleep(300 * time.Millisecond)
 		// ---- teardown and resource accounting
-		w.Router.OnSend = nil
+		w.Router.SetOnSend(nil)
 		if conn != nil {
 			conn.CloseWithError(0, "")
 		}
